@@ -135,17 +135,23 @@ func (b *memCopy) Run() {
 }
 
 // ---------------------------------------------------------------------------
-// tinyKernels: a generated chain of many element-wise kernels (add/mul/xor,
-// hand assembled, race free) over small buffers, one buffer per GPU, with
-// copies in between: many application<->engine hand-offs.
+// tinyKernels: a generated program of many element-wise kernels (add/mul/xor,
+// hand assembled, race free): (1) a chain of blocking launches over a small
+// buffer per GPU with copies in between (many application<->engine
+// hand-offs), every sixth launch over a large buffer (many wavefronts per
+// compute unit, so that the schedulers inside a CU have to arbitrate);
+// (2) with two GPUs, a phase with one queue per GPU, both filled before either
+// is drained (two queues in flight from one application goroutine).
 
 type tinyKernels struct {
-	d       *driver.Driver
-	ctx     *driver.Context
-	gpus    []int
-	Kernels int
-	Elems   int
-	Seed    int
+	d          *driver.Driver
+	ctx        *driver.Context
+	gpus       []int
+	Kernels    int
+	Elems      int
+	BigElems   int
+	Concurrent int
+	Seed       int
 }
 
 func (b *tinyKernels) SelectGPU(g []int)  { b.gpus = g }
@@ -153,8 +159,12 @@ func (b *tinyKernels) SetUnifiedMemory() {}
 func (b *tinyKernels) Verify()           {}
 func (b *tinyKernels) Run() {
 	b.ctx = b.d.Init()
-	cos := [3]*insts.KernelCodeObject{kern.ElemKernel(kern.OpAdd), kern.ElemKernel(kern.OpMul), kern.ElemKernel(kern.OpXor)}
+	newCOs := func() [3]*insts.KernelCodeObject {
+		return [3]*insts.KernelCodeObject{kern.ElemKernel(kern.OpAdd), kern.ElemKernel(kern.OpMul), kern.ElemKernel(kern.OpXor)}
+	}
+	cos := newCOs()
 	bufs := make([]driver.Ptr, len(b.gpus))
+	bigs := make([]driver.Ptr, len(b.gpus))
 	host := make([]uint32, b.Elems)
 	for gi, g := range b.gpus {
 		b.d.SelectGPU(b.ctx, g)
@@ -163,15 +173,51 @@ func (b *tinyKernels) Run() {
 			host[i] = uint32(gi)<<28 | uint32(i)*2654435761
 		}
 		b.d.MemCopyH2D(b.ctx, bufs[gi], host)
+		if b.BigElems > 0 {
+			bigs[gi] = b.d.AllocateMemory(b.ctx, uint64(4*b.BigElems))
+			bh := make([]uint32, b.BigElems)
+			for i := range bh {
+				bh[i] = uint32(i)*40503 + uint32(gi)
+			}
+			b.d.MemCopyH2D(b.ctx, bigs[gi], bh)
+		}
 	}
 	x := uint32(b.Seed)*2654435761 + 12345
 	for k := 0; k < b.Kernels; k++ {
 		x = x*1664525 + 1013904223
 		gi := k % len(b.gpus)
 		b.d.SelectGPU(b.ctx, b.gpus[gi])
-		args := kern.ElemArgs{Buf: bufs[gi], C: (x>>8)|1}
-		b.d.LaunchKernel(b.ctx, cos[(x>>4)%3], [3]uint32{uint32(b.Elems), 1, 1}, [3]uint16{64, 1, 1}, &args)
+		buf, n := bufs[gi], b.Elems
+		if b.BigElems > 0 && k%6 == 5 {
+			buf, n = bigs[gi], b.BigElems
+		}
+		args := kern.ElemArgs{Buf: buf, C: (x >> 8) | 1}
+		b.d.LaunchKernel(b.ctx, cos[(x>>4)%3], [3]uint32{uint32(n), 1, 1}, [3]uint16{64, 1, 1}, &args)
 		if k%8 == 7 {
+			b.d.MemCopyD2H(b.ctx, host, bufs[gi])
+		}
+	}
+	if len(b.gpus) >= 2 && b.Concurrent > 0 {
+		// one queue per GPU, each with code objects of its own (a code object
+		// shared by two queues of one context is the open C12 finding)
+		qs := make([]*driver.CommandQueue, len(b.gpus))
+		qcos := make([][3]*insts.KernelCodeObject, len(b.gpus))
+		for gi, g := range b.gpus {
+			b.d.SelectGPU(b.ctx, g)
+			qs[gi] = b.d.CreateCommandQueue(b.ctx)
+			qcos[gi] = newCOs()
+		}
+		for r := 0; r < b.Concurrent; r++ {
+			for gi := range b.gpus {
+				x = x*1664525 + 1013904223
+				args := kern.ElemArgs{Buf: bufs[gi], C: (x >> 8) | 1}
+				b.d.EnqueueLaunchKernel(qs[gi], qcos[gi][(x>>4)%3], [3]uint32{uint32(b.Elems), 1, 1}, [3]uint16{64, 1, 1}, &args)
+			}
+		}
+		for _, q := range qs {
+			b.d.DrainCommandQueue(q)
+		}
+		for gi := range b.gpus {
 			b.d.MemCopyD2H(b.ctx, host, bufs[gi])
 		}
 	}
@@ -198,7 +244,8 @@ func makeWorkload(c caseDesc, rn *runner.Runner) benchmarks.Benchmark {
 	case "memcopy":
 		return &memCopy{d: d, ctx: d.Init(), ByteSize: uint64(p(c, "bytes", 1048576))}
 	case "tinykernels":
-		return &tinyKernels{d: d, Kernels: p(c, "kernels", 40), Elems: p(c, "elems", 256), Seed: p(c, "seed", 1)}
+		return &tinyKernels{d: d, Kernels: p(c, "kernels", 40), Elems: p(c, "elems", 256), BigElems: p(c, "big_elems", 0),
+			Concurrent: p(c, "concurrent", 0), Seed: p(c, "seed", 1)}
 	case "kmeans":
 		b := kmeans.NewBenchmark(d)
 		b.Arch = at
